@@ -1,22 +1,24 @@
 /-
   C07 — structs and arrays copy by value; pointers, references and self alias coherently.
-  Property theorems over the value-tree model (CbModel/Heap.lean).  Statements are fixed; proofs only.
+  Property theorems over the value-tree model (CbModel/Heap.lean), for an arbitrary type `α` of scalar leaves.  Statements are fixed; proofs only.
 -/
 import CbModel.Heap
 import CbProofs.Heap
 namespace CbProps.C07
 open CbModel.Heap
 
+variable {α : Type}
+
 /-- a write is read back through the same cell -/
-theorem get_set_same (p : Path) (t nv : Val) (h : (get p t).isSome) : get p (set p t nv) = some nv := by
+theorem get_set_same (p : Path) (t nv : Val α) (h : (get p t).isSome) : get p (set p t nv) = some nv := by
   exact CbProofs.Heap.get_set_same p t nv h
 
 /-- a write into one cell leaves every non-overlapping cell unchanged -/
-theorem get_set_disjoint (p q : Path) (t nv : Val) (h : Disjoint p q) : get q (set p t nv) = get q t := by
+theorem get_set_disjoint (p q : Path) (t nv : Val α) (h : Disjoint p q) : get q (set p t nv) = get q t := by
   exact CbProofs.Heap.get_set_disjoint p q t nv h
 
 /-- after replacing a subtree, the cells below it are the parts of the new value -/
-theorem get_set_below (p r : Path) (t nv : Val) (h : (get p t).isSome) :
+theorem get_set_below (p r : Path) (t nv : Val α) (h : (get p t).isSome) :
     get (p ++ r) (set p t nv) = get r nv := by
   exact CbProofs.Heap.get_set_below p r t nv h
 
@@ -30,7 +32,7 @@ theorem disjoint_append_left (p q r : Path) (h : Disjoint p q) : Disjoint (p ++ 
 
 /-- **Copies are independent.**  After `dst = src` (two non-overlapping objects) both hold the same value, and a
     later write anywhere inside either one is never visible through the other -/
-theorem copy_independent (s : St) (dst src : Path) (v : Val) (hd : Disjoint dst src)
+theorem copy_independent (s : St α) (dst src : Path) (v : Val α) (hd : Disjoint dst src)
     (hdv : (get dst s.root).isSome) (hs : get src s.root = some v) :
     get dst (copy s (.direct dst) (.direct src)).root = some v ∧
     get src (copy s (.direct dst) (.direct src)).root = some v ∧
@@ -54,45 +56,56 @@ theorem copy_independent (s : St) (dst src : Path) (v : Val) (hd : Disjoint dst 
     exact h1
 
 /-- **Aliases are coherent (1).**  Two access paths that denote the same cell always read the same value -/
-theorem alias_reads_agree (s : St) (a b : Acc) (h : resolve s a = resolve s b) : read s a = read s b := by
+theorem alias_reads_agree (s : St α) (a b : Acc) (h : resolve s a = resolve s b) : read s a = read s b := by
   simp only [CbModel.Heap.read, h]
 
 /-- **Aliases are coherent (2).**  A write through any access path (plain name, member path, pointer, reference
     parameter, array parameter, self) is visible through every other access path to the same cell as soon as the
     write completes -/
-theorem alias_write_visible (s : St) (a b : Acc) (p : Path) (n : Int)
+theorem alias_write_visible (s : St α) (a b : Acc) (p : Path) (n : α)
     (ha : resolve s a = some p) (hb : resolve s b = some p) (hv : (get p s.root).isSome) :
-    read (write s a n) b = some (.int n) := by
+    read (write s a n) b = some (.leaf n) := by
   rw [CbProofs.Heap.read_write s a b p p n ha hb]
-  exact CbProofs.Heap.get_set_same p s.root (.int n) hv
+  exact CbProofs.Heap.get_set_same p s.root (.leaf n) hv
 
 /-- ... and through access paths to enclosing objects: reading a struct that contains the written cell sees the
     new scalar at that position -/
-theorem alias_write_visible_above (s : St) (a b : Acc) (p r : Path) (n : Int)
+theorem alias_write_visible_above (s : St α) (a b : Acc) (p r : Path) (n : α)
     (ha : resolve s a = some (p ++ r)) (hb : resolve s b = some p) (hv : (get (p ++ r) s.root).isSome) :
-    (read (write s a n) b).bind (get r) = some (.int n) := by
+    (read (write s a n) b).bind (get r) = some (.leaf n) := by
   rw [CbProofs.Heap.read_write s a b (p ++ r) p n ha hb, ← CbProofs.Heap.get_append]
-  exact CbProofs.Heap.get_set_same (p ++ r) s.root (.int n) hv
+  exact CbProofs.Heap.get_set_same (p ++ r) s.root (.leaf n) hv
 
 /-- a write through one access path changes nothing that is read through a path to a non-overlapping cell -/
-theorem write_frame (s : St) (a b : Acc) (p q : Path) (n : Int)
+theorem write_frame (s : St α) (a b : Acc) (p q : Path) (n : α)
     (ha : resolve s a = some p) (hb : resolve s b = some q) (hd : Disjoint p q) :
     read (write s a n) b = read s b := by
-  rw [CbProofs.Heap.read_write s a b p q n ha hb, CbProofs.Heap.get_set_disjoint p q s.root (.int n) hd]
+  rw [CbProofs.Heap.read_write s a b p q n ha hb, CbProofs.Heap.get_set_disjoint p q s.root (.leaf n) hd]
   simp [CbModel.Heap.read, hb]
 
 /-- a by-value call (the callee works on its own copy) changes nothing in the caller -/
-theorem byvalue_call_changes_nothing (s : St) : step s .nop = s := rfl
+theorem byvalue_call_changes_nothing (s : St α) : step s .nop = s := rfl
 
 /-- layouts are stable: a scalar store keeps the shape of the whole object graph, and a copy between objects of
     the same shape does too (so every access path valid before an operation is valid after it) -/
-theorem write_keeps_shape (s : St) (a : Acc) (n m : Int) (h : read s a = some (.int m)) :
+theorem write_keeps_shape (s : St α) (a : Acc) (n m : α) (h : read s a = some (.leaf m)) :
     sameShape s.root (write s a n).root = true := by
   obtain ⟨p, hp, hg⟩ := CbProofs.Heap.read_eq_some s a _ h
   rw [CbProofs.Heap.write_root s a p n hp]
-  exact CbProofs.Heap.sameShape_set p s.root (.int m) (.int n) hg (by simp [sameShape])
+  exact CbProofs.Heap.sameShape_set p s.root (.leaf m) (.leaf n) hg (by simp [sameShape])
 
-theorem copy_keeps_shape (s : St) (dst src : Acc) (vd vs : Val)
+/-- an in-place update `x = f x` of a scalar cell is the store of `f` of the value read there -/
+theorem modify_is_write {α : Type} (s : St α) (a : Acc) (f : α → α) (m : α) (h : read s a = some (.leaf m)) :
+    modify s a f = write s a (f m) := by
+  simp only [CbModel.Heap.modify, h]
+
+/-- ... so it keeps the shape of the whole object graph, like a scalar store -/
+theorem modify_keeps_shape {α : Type} (s : St α) (a : Acc) (f : α → α) (m : α) (h : read s a = some (.leaf m)) :
+    sameShape s.root (modify s a f).root = true := by
+  rw [modify_is_write s a f m h]
+  exact write_keeps_shape s a (f m) m h
+
+theorem copy_keeps_shape (s : St α) (dst src : Acc) (vd vs : Val α)
     (hd : read s dst = some vd) (hs : read s src = some vs) (hsh : sameShape vd vs = true) :
     sameShape s.root (copy s dst src).root = true := by
   obtain ⟨p, hp, hg⟩ := CbProofs.Heap.read_eq_some s dst _ hd
@@ -102,17 +115,35 @@ theorem copy_keeps_shape (s : St) (dst src : Acc) (vd vs : Val)
   exact CbProofs.Heap.sameShape_set p s.root vd vs hg hsh
 
 /-- same shape = same set of valid paths -/
-theorem sameShape_get_isSome (t u : Val) (p : Path) (h : sameShape t u = true) :
+theorem sameShape_get_isSome (t u : Val α) (p : Path) (h : sameShape t u = true) :
     (get p t).isSome = (get p u).isSome := by
   exact CbProofs.Heap.sameShape_get_isSome t u p h
 
 /-- non-vacuity: a concrete object graph  o1 = {1, {2, 3}, [6, 7]}, o2 = copy, pointer 0 -> o1 -/
 example :
-    let o : Val := .node [.int 1, .node [.int 2, .int 3], .node [.int 6, .int 7]]
-    let s : St := ⟨.node [o, o], [[0]]⟩
-    read (write s (.via 0 [1, 0]) 9) (.direct [0, 1, 0]) = some (.int 9) ∧
-    read (write s (.via 0 [1, 0]) 9) (.direct [1, 1, 0]) = some (.int 2) := by
+    let o : Val Int := .node [.leaf 1, .node [.leaf 2, .leaf 3], .node [.leaf 6, .leaf 7]]
+    let s : St Int := ⟨.node [o, o], [[0]]⟩
+    read (write s (.via 0 [1, 0]) 9) (.direct [0, 1, 0]) = some (.leaf 9) ∧
+    read (write s (.via 0 [1, 0]) 9) (.direct [1, 1, 0]) = some (.leaf 2) := by
   intro o s
   exact ⟨rfl, rfl⟩
+
+/-- the integer instance: `addTo` is `modify` with `(· + n)`, and `step (.upd a (· + n))` performs it -/
+example :
+    let s : St Int := ⟨.node [.leaf 1, .node [.leaf 2, .leaf 3]], [[1]]⟩
+    read (addTo s (.via 0 [1]) 4) (.direct [1, 1]) = some (.leaf 7) ∧
+    step s (.upd (.via 0 [1]) (· + 4)) = addTo s (.via 0 [1]) 4 := by
+  intro s
+  exact ⟨rfl, rfl⟩
+
+/-- non-vacuity of the generalisation: string leaves.  A write through pointer 0 (-> the inner struct) is read back
+    through the direct path; the other string is untouched; an in-place update appends through the pointer -/
+example :
+    let s : St String := ⟨.node [.leaf "ab", .node [.leaf "c"]], [[1]]⟩
+    read (write s (.via 0 [0]) "xyz") (.direct [1, 0]) = some (.leaf "xyz") ∧
+    read (write s (.via 0 [0]) "xyz") (.direct [0]) = some (.leaf "ab") ∧
+    flatten (modify s (.via 0 [0]) (· ++ "d")).root = ["ab", "cd"] := by
+  intro s
+  exact ⟨rfl, rfl, by decide⟩
 
 end CbProps.C07
